@@ -144,6 +144,8 @@ def _variants(n_steps):
         c["engines"].append(scen.engine(2, [scen.target_eci(10004, *scen.LEO_B)], [scen.ground_sensor(20004, -20.0, 60.0)]))
 
     var("second_engine", second_engine)
+    # placeholder: the configuration is completed in run_item from the base run (needs 10000's state after step 1)
+    var("late_twin", lambda c: None, exclude=())
     return base, out
 
 
@@ -283,7 +285,23 @@ def run_item(item):
         base_cfg, variants = _variants(n)
         cfg, plan, exclude = variants[name]
         b = _base_run(n)
+        if name == "late_twin":
+            # a target added DURING the run (event in step 2, so it is created at the epoch of step 1) with exactly the
+            # state target 10000 has at that epoch: same dynamics + same state at the same epoch => same truth, bit for
+            # bit, at every later step - whatever moment of the run the agent's dynamics object was built at
+            x = np.frombuffer(b["truth"][0][10000]).tolist()
+            cfg["events"].append({
+                "scope": "scenario_step", "scope_instance_id": 0, "start_time": scen.iso(START + timedelta(seconds=2 * DT)),
+                "event_type": "target_addition", "tasking_engine_id": 1, "target_agent": scen.target_eci(10009, x[:3], x[3:]),
+            })
         r = _run(cfg, plan)
+        if name == "late_twin" and not r["error"]:
+            bad = [(k + 1, np.frombuffer(st[10000]).tolist(), np.frombuffer(st.get(10009, b"")).tolist())
+                   for k, st in enumerate(r["truth"]) if k >= 1 and st.get(10009) != st[10000]]
+            res.case("variant/late_twin_identical", {"pair": name, "twin_of": 10000, "added_in_step": 2},
+                     not bad and len(r["truth"]) >= 3, nontrivial=True, key="late_twin_identical",
+                     signature="C10/variant/late_twin_differs", observed=bad[:1],
+                     expected="bit-identical truth of 10009 and 10000 from step 2 on", item=item)
         # non-trivial iff the variant changes something other than truth (or is a split / membership change)
         changes_other = (r["n_obs"] != b["n_obs"] or r["n_est"] != b["n_est"] or r["est"] != b["est"]
                          or len(r["rows"]) != len(b["rows"]) or name.startswith("split"))
